@@ -26,6 +26,9 @@ def run(ctx):
     ctx.each(flowalg.accumulator_rule, ctx, repo, "R02e")
     ctx.each(flowalg.must_store_rule, ctx, repo, "R02f")
     ctx.each(r02g, ctx, repo)
+    from . import c04
+
+    ctx.each(c04.r04c, ctx, repo)  # the residual outflow gets the remainder only while the explicit proportions sum below 1: otherwise it would be a negative (reverse) flow
 
 
 def _is_one(e):
